@@ -12,5 +12,7 @@ for tc in ET.parse(sys.argv[1]).getroot().iter('testcase'):
 missing = sorted(base - passed)
 print(f"stable_pass {len(base)}; passing now {len(base & passed)}; missing {len(missing)}")
 for m in missing: print("  MISSING", m)
+sys.exit(1 if missing else 0)
 P
-rm -f $out /tmp/baseline_$$.log
+rc=$?
+rm -f $out /tmp/baseline_$$.log; exit $rc
